@@ -39,6 +39,18 @@ CHECKS = [
     chk("C07", "proof",
         "Modular proofs (CBMC dfcc contract enforcement, symbolic array sizes up to 30000) that the functions under contract reject invalid arguments with a non-zero code and an empty frame (conditional assigns), with all pointer/bounds/overflow checks discharged.",
         NOTE, TECH, "DESIGN.md 4/C07"),
+    chk("C14", "proof",
+        "Frame half ('writing does not consume the basis'): QSwrite_basis under contract with an empty assigns/frees clause on everything reachable from the problem (dfcc), loops of the basis conversion closed by loop contracts, symbolic basis sizes up to 30000; the problem's basis, status and factorization flag are unchanged whatever the writer returns.",
+        NOTE + "Not decided: the textual round trip (ILLlib_writebasis / ILLlib_readbasis: file text, name lookup), only listed where a group for it appears in the evidence.",
+        TECH, "DESIGN.md 4/C14"),
+    chk("C16", "other",
+        "Bounded contract check of QScopy_prob (nstruct <= 3, loops completely unwound, everything else symbolic): independent (no pointer member of the copy's pricing info equals the source's, source untouched) and faithful (rows handed over in one block, k-th column receives the k-th structural column's entries, objective, bounds, name, integer mark; sense, display/scaling, pricing rules copied).",
+        NOTE + "Not decided: conversion accuracy of the reduced-precision copies (GMP's mpq_get_d / mpf_set_q), what ILLlib_newrows/addcol do with their arguments (C06).",
+        TECH, "DESIGN.md 4/C16"),
+    chk("C20", "proof",
+        "QSlogv contract (handler installed => handler called exactly once with the complete message, no fprintf/perror on a returning path; symbolic message length), QSwrite_prob (stdout only on request, open failure is an error), non-interactive reader never prompts; plus a static enumeration over the goto binaries of ALL library translation units (3 instantiations): every call site of a libc writer and every mention of stdout/stderr must be an audited site whose justification obligation holds.",
+        NOTE + "Not decided: the sites audited as 'assumed' (debug printers behind TRACE-guarded calls are checked for the guard; console editor output; EGioClose pointer comparison); writes through streams the host itself passes in.",
+        TECH + "; supporting static enumeration of writer call sites from the goto binaries", "DESIGN.md 4/C20"),
 ]
 
 _NYB = "not built yet in this tree (planned in DESIGN.md); no check is registered, nothing is claimed"
@@ -49,4 +61,4 @@ NOT_APPLICABLE = [
     {"property_id": "C09", "reason": "same as C08 for the MPS format"},
     {"property_id": "C15", "reason": "relation between two solves of different inputs (2-safety); not a single-call contract"},
 ] + [{"property_id": p, "reason": _NYB} for p in
-     ["C10", "C11", "C12", "C13", "C14", "C16", "C17", "C18", "C19", "C20"]]
+     ["C10", "C11", "C12", "C13", "C17", "C18", "C19"]]
